@@ -63,9 +63,41 @@ def registry : List (String × (Text → Res (Text × J))) := [
   ("Field77T", fun c => withTag "77T" (F77T.parse c) id (fun v => .obj [("envelope_content", .str v)]))
 ]
 
+/-- field types whose model is exact only on part of the inputs (amounts inside the 15-digit region): `none` = not comparable -/
+def registryPartial : List (String × (Text → Option (Res (Text × J)))) :=
+  let ccyAmt (tag : String) (positive : Bool) : Text → Option (Res (Text × J)) := fun c =>
+    if isAsciiT c && !amountExact (c.drop 3) (c.take 3) then none
+    else some (withTag tag (CcyAmt.parse positive c) CcyAmt.ser CcyAmt.json)
+  let dateCcyAmt (tag : String) : Text → Option (Res (Text × J)) := fun c =>
+    if isAsciiT c && !amountExact (c.drop 9) ((c.drop 6).take 3) then none
+    else some (withTag tag (DateCcyAmt.parse c) DateCcyAmt.ser DateCcyAmt.json)
+  let balance (tag : String) : Text → Option (Res (Text × J)) := fun c =>
+    if isAsciiT c && !amountExact (c.drop 10) ((c.drop 7).take 3) then none
+    else some (withTag tag (Balance.parse c) Balance.ser Balance.json)
+  let f34 : Text → Option (Res (Text × J)) := fun c =>
+    let rest := if (c.drop 3).head? == some 'D' || (c.drop 3).head? == some 'C' then c.drop 4 else c.drop 3
+    if isAsciiT c && !amountExact rest (c.take 3) then none
+    else some (withTag "34F" (F34F.parse c) F34F.ser F34F.json)
+  -- 19 prints two decimals: comparable when at most two were written and the digits fit (field 19 has no currency)
+  let f19 : Text → Option (Res (Text × J)) := fun c =>
+    let intD := (c.takeWhile Char.isDigit).length
+    let dec := match c.findIdx? (fun ch => ch == ',' || ch == '.') with | some p => c.length - p - 1 | none => 0
+    if isAsciiT c && (dec > 2 || intD + 2 > 15) then none
+    else some (withTag "19" (F19.parse c) F19.ser (fun d => .obj [("amount", J.dec d)]))
+  [("Field34F", f34), ("Field19", f19),
+   ("Field60F", balance "60F"), ("Field60M", balance "60M"), ("Field62F", balance "62F"), ("Field62M", balance "62M"),
+   ("Field64", balance "64"), ("Field65", balance "65"),
+   ("Field32B", ccyAmt "32B" true), ("Field33B", ccyAmt "33B" true), ("Field71F", ccyAmt "71F" false), ("Field71G", ccyAmt "71G" false),
+   ("Field32A", dateCcyAmt "32A"), ("Field32C", dateCcyAmt "32C"), ("Field32D", dateCcyAmt "32D")]
+
+def modelledNames : List String := registry.map (·.1) ++ registryPartial.map (·.1)
+
 def run (name : String) (c : Text) : Option (Res (Text × J)) :=
   match registry.find? (fun p => p.1 == name) with
   | some p => some (p.2 c)
-  | none => none
+  | none =>
+    match registryPartial.find? (fun p => p.1 == name) with
+    | some p => p.2 c
+    | none => none
 
 end SwiftMT.Fields
